@@ -12,11 +12,21 @@ Everything else in the anchored functions (read_neuroml2_file, read_neuroml2_str
 add_all_to_document) is compared, statement by statement, with the code the hand model `Model/Include.lean` was
 written from (docstrings and `print_method(...)` calls ignored).  A statement that is not the expected one is a GAP:
 the translator refuses, it never skips.
+
+Robustness round: before the comparison both sides go through `include_normalise.canon` (equivalent surface shapes of
+one statement -> one shape: else after return, conditional expression vs if/else assignment, a single-use local,
+f-string vs %, tuple unpacking of getmembers() pairs, a private helper that is called once, ... each rule with its
+reason in include_normalise.py) and the locals of the tree's function are renamed to the expected names by order of
+first binding (`alpha`).  Whatever the normaliser does not recognise is left alone and is refused here as before.
 """
 import ast
+import copy
 import os
 import sys
 import textwrap
+
+sys.path.insert(0, os.path.dirname(os.path.abspath(__file__)))
+import include_normalise as N  # noqa: E402
 
 LOADERS = "neuroml/loaders.py"
 UTILS = "neuroml/utils.py"
@@ -24,37 +34,39 @@ PARSER = "neuroml/hdf5/NeuroMLHdf5Parser.py"
 
 
 # ------------------------------------------------------------------ AST helpers
-def _is_print(stmt):
-    return (isinstance(stmt, ast.Expr) and isinstance(stmt.value, ast.Call)
-            and isinstance(stmt.value.func, ast.Name) and stmt.value.func.id in ("print_method", "print"))
+def _dumps(fn):
+    """one dump per statement; through unparse/parse so that synthesised nodes look like parsed ones"""
+    return [ast.dump(ast.parse(ast.unparse(s)).body[0]) for s in fn.body]
 
 
-def _is_doc(stmt):
-    return isinstance(stmt, ast.Expr) and isinstance(stmt.value, ast.Constant) and isinstance(stmt.value.value, str)
+def _first_diff(got, exp, path=""):
+    """(path, text) of the innermost first statement of `got` that differs from `exp` (both lists of statements)"""
+    k = 0
+    while k < min(len(got), len(exp)) and ast.dump(got[k]) == ast.dump(exp[k]):
+        k += 1
+    here = "%s%d" % (path, k + 1)
+    if k >= len(got):
+        return here, "(statement missing)"
+    if k < len(exp) and type(got[k]) is type(exp[k]) and isinstance(got[k], (ast.If, ast.For)):
+        g, e = got[k], exp[k]
+        heads = ("test",) if isinstance(g, ast.If) else ("target", "iter")
+        if all(ast.dump(getattr(g, h)) == ast.dump(getattr(e, h)) for h in heads):
+            if [ast.dump(x) for x in g.body] != [ast.dump(x) for x in e.body]:
+                return _first_diff(g.body, e.body, here + ".")
+            return _first_diff(g.orelse, e.orelse, here + ".else.")
+    return here, ast.unparse(got[k]).split("\n")[0][:140]
 
 
-class _Strip(ast.NodeTransformer):
-    """drop docstrings, print_method(...) statements and annotations: none of them is behaviour of the model"""
-
-    def _body(self, body):
-        out = [self.visit(s) for s in body if not (_is_print(s) or _is_doc(s))]
-        return out or [ast.Pass()]
-
-    def generic_visit(self, node):
-        for f in ("body", "orelse", "finalbody"):
-            if isinstance(getattr(node, f, None), list) and getattr(node, f):
-                setattr(node, f, self._body(getattr(node, f)))
-        return super().generic_visit(node)
+def _reparsed(fn):
+    return ast.parse(ast.unparse(fn)).body[0]
 
 
-def _norm(stmts):
-    mod = ast.Module(body=list(stmts), type_ignores=[])
-    mod = _Strip().visit(mod)
-    return [ast.dump(s) for s in mod.body]
-
-
-def _expected(src):
-    return _norm(ast.parse(textwrap.dedent(src)).body)
+def _as_function(fn, src):
+    """the expected body `src` as a function with the parameters of `fn` (so parameters / locals are told apart alike)"""
+    f = copy.deepcopy(fn)
+    f.body = ast.parse(textwrap.dedent(src)).body
+    f.decorator_list = []
+    return f
 
 
 def _find(tree, qual):
@@ -71,23 +83,25 @@ def _find(tree, qual):
     return node
 
 
-def _match(fn, variants, where, gaps):
-    """compare the stripped body of `fn` with each variant (name -> source of the body); return the matching name"""
-    got = _norm(fn.body)
+def _match(fn, variants, where, gaps, module=None):
+    """compare the normalised body of `fn` with each variant (name -> source of the body), both normalised and `fn`'s
+    locals renamed to the variant's; return (matching name, the normalised + renamed function) or (None, None)"""
+    got0 = N.canon(fn, module)
     firsts = []
     for name, src in variants.items():
-        exp = _expected(src)
-        if got == exp:
-            return name
+        exp = N.canon(_as_function(fn, src))
+        got = N.alpha(got0, exp)
+        g, e = _dumps(got), _dumps(exp)
+        if g == e:
+            return name, got
         k = 0
-        while k < min(len(got), len(exp)) and got[k] == exp[k]:
+        while k < min(len(g), len(e)) and g[k] == e[k]:
             k += 1
-        firsts.append(k)
-    k = max(firsts)
-    body = [s for s in fn.body if not (_is_print(s) or _is_doc(s))]
-    text = ast.unparse(body[k]).split("\n")[0][:140] if k < len(body) else "(statement missing)"
-    gaps.append("%s: statement %d is not the modelled one: %s" % (where, k + 1, text))
-    return None
+        firsts.append((k, got, exp))
+    k, got, exp = max(firsts, key=lambda t: t[0])
+    at, text = _first_diff(_reparsed(got).body, _reparsed(exp).body)
+    gaps.append("%s: statement %s (after normalisation) is not the modelled one: %s" % (where, at, text))
+    return None, None
 
 
 def _signature(fn, where, gaps):
@@ -213,7 +227,8 @@ def _lean_expr(e, gaps):
 
 
 def _merge_test(fn, gaps):
-    """find `for c in getattr(nml_doc_tgt, memb[0]): if <test>: added = True`, return (<test>, fn with <test> := __SAME__)"""
+    """find `for c in getattr(nml_doc_tgt, memb[0]): if <test>: added = True` in the NORMALISED function (locals already
+    renamed to the expected names), return (<test>, fn with <test> := __SAME__)"""
     found = []
 
     class T(ast.NodeTransformer):
@@ -231,6 +246,20 @@ def _merge_test(fn, gaps):
     return found[0], fn2
 
 
+def _match_add_all(fn, module, gaps):
+    """-> the merge test (ast, over the expected names `c` / `entry`) or None"""
+    exp = N.canon(_as_function(fn, ADD_ALL))
+    got = N.alpha(N.canon(fn, module), exp)
+    test, holed = _merge_test(got, gaps)
+    if test is None:
+        return None
+    g, e = _dumps(holed), _dumps(exp)
+    if g != e:
+        at, text = _first_diff(_reparsed(holed).body, _reparsed(exp).body)
+        gaps.append("add_all_to_document: statement %s (after normalisation) is not the modelled one: %s" % (at, text))
+    return test
+
+
 # ------------------------------------------------------------------ the four HDF5 call sites
 def _kwargs(call):
     return {k.arg: ast.unparse(k.value) for k in call.keywords}
@@ -238,6 +267,34 @@ def _kwargs(call):
 
 def _calls(fn, pred):
     return [n for n in ast.walk(fn) if isinstance(n, ast.Call) and pred(n)]
+
+
+def _is_top_level_string(parse, args):
+    """the one positional argument is a local (any name: alpha renaming) whose only binding in `parse` is
+    `get_str_attribute_group(h5file.root.neuroml, "neuroml_top_level")` - the XML embedded in the file
+    (`h5file.root.neuroml` may itself be held in a local that is bound once)"""
+    if len(args) != 1 or not isinstance(args[0], ast.Name):
+        return False
+    name = args[0].id
+    if name in N.params(parse):
+        return False
+    binds = [n for n in ast.walk(parse) if isinstance(n, ast.Name) and n.id == name and isinstance(n.ctx, (ast.Store, ast.Del))]
+    vals = [n.value for n in ast.walk(parse) if isinstance(n, ast.Assign) and len(n.targets) == 1
+            and isinstance(n.targets[0], ast.Name) and n.targets[0].id == name]
+    if not (len(binds) == 1 and len(vals) == 1 and isinstance(vals[0], ast.Call) and not vals[0].keywords
+            and ast.unparse(vals[0].func) == "get_str_attribute_group" and len(vals[0].args) == 2
+            and ast.unparse(vals[0].args[1]) == "'neuroml_top_level'"):
+        return False
+    grp = vals[0].args[0]
+    if isinstance(grp, ast.Name) and grp.id not in N.params(parse):      # a local bound once to the group
+        gb = [n for n in ast.walk(parse) if isinstance(n, ast.Name) and n.id == grp.id
+              and isinstance(n.ctx, (ast.Store, ast.Del))]
+        gv = [n.value for n in ast.walk(parse) if isinstance(n, ast.Assign) and len(n.targets) == 1
+              and isinstance(n.targets[0], ast.Name) and n.targets[0].id == grp.id]
+        if len(gb) != 1 or len(gv) != 1:
+            return False
+        grp = gv[0]
+    return ast.unparse(grp) == "h5file.root.neuroml"
 
 
 def _hdf5_sites(lt, pt, gaps):
@@ -278,7 +335,7 @@ def _hdf5_sites(lt, pt, gaps):
         kw = _kwargs(c)
         base = {"include_includes": "True", "verbose": "False",
                 "base_path": "os.path.dirname(os.path.abspath(filename))"}
-        if [ast.unparse(x) for x in c.args] != ["nml"]:
+        if not _is_top_level_string(parse, c.args):
             gaps.append("NeuroMLHdf5Parser.parse: unrecognised positional arguments of read_neuroml2_string")
         elif kw == base:
             votes.append("own")
@@ -316,9 +373,9 @@ def analyse(repo):
         return None, "false", gaps
     for q in ("read_neuroml2_file", "read_neuroml2_string", "_read_neuroml2"):
         _signature(fns[q], q, gaps)
-    _match(fns["read_neuroml2_file"], {"": READ_FILE}, "read_neuroml2_file", gaps)
-    _match(fns["read_neuroml2_string"], {"": READ_STRING}, "read_neuroml2_string", gaps)
-    loop = _match(fns["_read_neuroml2"], READ, "_read_neuroml2", gaps)
+    _match(fns["read_neuroml2_file"], {"": READ_FILE}, "read_neuroml2_file", gaps, lt)
+    _match(fns["read_neuroml2_string"], {"": READ_STRING}, "read_neuroml2_string", gaps, lt)
+    loop, _ = _match(fns["_read_neuroml2"], READ, "_read_neuroml2", gaps, lt)
     sites = _hdf5_sites(lt, pt, gaps)
     sh = None
     if loop and sites:
@@ -326,12 +383,17 @@ def analyse(repo):
             sh = (loop == "shared")
         else:
             gaps.append("_read_neuroml2 handles HDF5 includes the `%s` way but the HDF5 loader/parser the `%s` way" % (loop, sites))
-    test, holed = _merge_test(fns["add_all_to_document"], gaps)
+    test = _match_add_all(fns["add_all_to_document"], ut, gaps)
     lean = "false"
+    global LAST_TEST_SRC
+    LAST_TEST_SRC = "?"
     if test is not None:
-        _match(holed, {"": ADD_ALL}, "add_all_to_document", gaps)
+        LAST_TEST_SRC = ast.unparse(test)
         lean = _lean_expr(test, gaps)
     return sh, lean, gaps
+
+
+LAST_TEST_SRC = "?"       # the merge test of the last `analyse`, normalised, as Python text (for the doc comment)
 
 
 def emit(sh, lean, gaps, test_src):
@@ -358,14 +420,7 @@ end NmlVerif.Gen.IncludeShape
 
 def regenerate(repo, out_path):
     sh, lean, gaps = analyse(repo)
-    test_src = "?"
-    try:
-        with open(os.path.join(repo, UTILS)) as fh:
-            t, _ = _merge_test(_find(ast.parse(fh.read()), "add_all_to_document"), [])
-        if t is not None:
-            test_src = ast.unparse(t)
-    except Exception:
-        pass
+    test_src = LAST_TEST_SRC
     text = emit(sh, lean, gaps, test_src)
     old = None
     if os.path.exists(out_path):
